@@ -71,6 +71,18 @@ Proof.
   rewrite !orb_true_iff, !Z.eqb_eq, Z.geb_le. tauto.
 Qed.
 
+(* the documented rule for transport errors: only timeouts (of net.Error values) are retried *)
+Lemma default_predicate_error_spec ne to tmp :
+  default_predicate_error ne to tmp = ne && to.
+Proof. destruct ne, to, tmp; reflexivity. Qed.
+
+Lemma default_predicate_error_outcome ne to tmp :
+  default_predicate (OErr ne to tmp) = PRetry <-> (ne = true /\ to = true).
+Proof.
+  unfold default_predicate. cbn [err_flags]. rewrite default_predicate_error_spec.
+  destruct ne, to; cbn; split; intro H; try discriminate; auto; destruct H; discriminate.
+Qed.
+
 Lemma default_policy_wellformed :
   0 < default_min_wait /\ default_min_wait <= default_max_wait /\ 0 <= default_max_retry.
 Proof. unfold default_min_wait, default_max_wait, default_max_retry. lia. Qed.
@@ -102,13 +114,13 @@ Proof. destruct (exp_backoff_total oob rnd e attempt o) as [d ->]. discriminate.
 (* the original source: a zero jitter panics, whatever the conversion of out-of-range
    floats and whatever the random source *)
 Lemma exp_backoff_prefix_panics :
-  forall oob rnd, exp_backoff_prefix oob rnd (mkE 250000000 (2 # 1) (0 # 1)) 0 OTimeout = BPanic.
+  forall oob rnd, exp_backoff_prefix oob rnd (mkE 250000000 (2 # 1) (0 # 1)) 0 (OErr true true true) = BPanic.
 Proof. intros. reflexivity. Qed.
 
 Lemma exp_backoff_prefix_refuted :
   exists e attempt o, forall oob rnd, exp_backoff_prefix oob rnd e attempt o = BPanic.
 Proof.
-  exists (mkE 250000000 (2 # 1) (0 # 1)), 0, OTimeout. exact exp_backoff_prefix_panics.
+  exists (mkE 250000000 (2 # 1) (0 # 1)), 0, (OErr true true true). exact exp_backoff_prefix_panics.
 Qed.
 
 (* Retry-After on 429: the backoff is exactly that many seconds *)
@@ -154,11 +166,16 @@ Inductive step_spec (p : policy) (cn : cancel) (bd : body) (st : bstate) (sc : l
           (t attempt : Z) (tr : list event) : step_res -> Prop :=
 | SSstop bh sc' got st1 o t1 :
     next_beh sc = (bh, sc') -> serve cn bd st bh t = (got, st1, o, t1) ->
-    (generic_retry p attempt o = DStop \/ generic_retry p attempt o = DFail \/
+    (generic_retry p attempt o = DStop \/
      (exists d, generic_retry p attempt o = DWait d /\
                 (d < 0 \/ rewind bd st1 = RwNoGetBody \/ rewind bd st1 = RwGetBodyErr))) ->
     step_spec p cn bd st sc t attempt tr
               (Done (mkOut (result_of_outcome o) st1 sc' t1 (tr ++ [EAttempt t got])))
+| SSfail bh sc' got st1 o t1 :
+    next_beh sc = (bh, sc') -> serve cn bd st bh t = (got, st1, o, t1) ->
+    generic_retry p attempt o = DFail ->
+    step_spec p cn bd st sc t attempt tr
+              (Done (mkOut (fail_result o) st1 sc' t1 (tr ++ [EAttempt t got])))
 | SSpanic bh sc' got st1 o t1 :
     next_beh sc = (bh, sc') -> serve cn bd st bh t = (got, st1, o, t1) ->
     generic_retry p attempt o = DPanic ->
@@ -185,15 +202,15 @@ Proof.
   destruct (serve cn bd st bh t) as [[[got st1] o] t1] eqn:Hs.
   destruct (generic_retry p attempt o) as [| |d|] eqn:Hg.
   - eapply SSstop; eauto.
-  - eapply SSstop; eauto.
+  - eapply SSfail; eauto.
   - destruct (d <? 0) eqn:Hd.
-    + eapply SSstop; eauto. right; right. exists d. split; [exact Hg|left; lia].
+    + eapply SSstop; eauto. right. exists d. split; [exact Hg|left; lia].
     + destruct (rewind bd st1) as [st2| |] eqn:Hr.
       * destruct (cancelled_before cn (t1 + d)) eqn:Hc.
         -- eapply SScancel; eauto. lia.
         -- eapply SSnext; eauto. lia.
-      * eapply SSstop; eauto. right; right. exists d. split; [exact Hg|auto].
-      * eapply SSstop; eauto. right; right. exists d. split; [exact Hg|auto].
+      * eapply SSstop; eauto. right. exists d. split; [exact Hg|auto].
+      * eapply SSstop; eauto. right. exists d. split; [exact Hg|auto].
   - eapply SSpanic; eauto.
 Qed.
 
@@ -241,7 +258,7 @@ Proof.
   intros st0 sc0 t0 a tr _ _.
   pose proof (rt_step_spec p cn bd st0 sc0 t0 a tr) as H.
   inversion H; subst; cbn [o_res]; try discriminate; try exact I.
-  destruct o; discriminate.
+  all: destruct o; discriminate.
 Qed.
 
 (* ------------------------------------------------------------------ *)
@@ -289,6 +306,7 @@ Proof.
   pose proof (rt_step_spec p cn bd st0 sc0 t0 a tr) as H.
   inversion H; subst; cbn [o_res]; try discriminate; try exact I.
   - destruct o; discriminate.
+  - destruct o; discriminate.
   - exfalso. eapply generic_retry_no_panic; eauto.
 Qed.
 
@@ -296,10 +314,12 @@ Qed.
 Lemma round_trip_nonretryable p cn bd st sc t bh sc' got st1 o t1 :
   next_beh sc = (bh, sc') -> serve cn bd st bh t = (got, st1, o, t1) ->
   p_pred p o <> PRetry ->
-  round_trip p cn bd st sc t = mkOut (result_of_outcome o) st1 sc' t1 [EAttempt t got].
+  exists r, (r = result_of_outcome o \/ r = fail_result o) /\
+            round_trip p cn bd st sc t = mkOut r st1 sc' t1 [EAttempt t got].
 Proof.
   intros Hn Hs Hp. unfold round_trip, rt_fuel. cbn [rt_loop]. unfold rt_step. rewrite Hn, Hs.
-  destruct (generic_retry_nonretryable p 0 o Hp) as [-> | ->]; reflexivity.
+  destruct (generic_retry_nonretryable p 0 o Hp) as [-> | ->];
+    eexists; (split; [|reflexivity]); auto.
 Qed.
 
 (* ------------------------------------------------------------------ *)
@@ -403,6 +423,7 @@ Proof.
       destruct (Hstep _ _ _ _ _ _ Hn Hs) as (B1 & B2 & B3) end.
   - auto.
   - auto.
+  - auto.
   - repeat split; auto. intro Hk.
     match goal with Hrw : rewind _ _ = RwOk _ |- _ =>
       unfold rewind in Hrw; rewrite Hk in Hrw; injection Hrw as <- end. auto.
@@ -429,13 +450,15 @@ Lemma round_trip_not_replayable p cn bd st sc t :
     next_beh sc = (bh, sc') /\ serve cn bd st bh t = (got, st1, o, t1) /\
     o_trace (round_trip p cn bd st sc t) = [EAttempt t got] /\
     (o_res (round_trip p cn bd st sc t) = result_of_outcome o \/
+     o_res (round_trip p cn bd st sc t) = fail_result o \/
      o_res (round_trip p cn bd st sc t) = RPanic).
 Proof.
   intro Hrw. unfold round_trip, rt_fuel. cbn [rt_loop].
   pose proof (rt_step_spec p cn bd st sc t 0 []) as H.
   inversion H; subst; cbn [o_trace o_res app].
   - exists bh, sc', got, st1, o, t1. auto.
-  - exists bh, sc', got, st1, o, t1. auto.
+  - exists bh, sc', got, st1, o, t1. auto 6.
+  - exists bh, sc', got, st1, o, t1. auto 6.
   - match goal with Hr : rewind _ _ = RwOk _ |- _ => destruct (Hrw st1) as [E|E]; rewrite E in Hr; discriminate end.
   - match goal with Hr : rewind _ _ = RwOk _ |- _ => destruct (Hrw st1) as [E|E]; rewrite E in Hr; discriminate end.
 Qed.
@@ -486,6 +509,9 @@ Proof.
     rewrite ?attempts_app, ?pauses_app; cbn [attempts pauses]; rewrite ?app_nil_r;
     match goal with Hs : serve _ _ _ _ _ = _ |- _ =>
       destruct (serve_time_cancel _ _ _ _ _ _ _ _ _ _ Ht0 Hs) as (T1 & _) end.
+  - repeat split; auto.
+    + apply Forall_app. split; [exact Ha|]. constructor; [exact Ht0|constructor].
+    + eapply Forall_impl; [|exact Hp]. intros pd (A & B). auto.
   - repeat split; auto.
     + apply Forall_app. split; [exact Ha|]. constructor; [exact Ht0|constructor].
     + eapply Forall_impl; [|exact Hp]. intros pd (A & B). auto.
